@@ -611,7 +611,7 @@ func (p *Process) StartWith(ctx context.Context, element schema.FlowNodeInterfac
 		// the next StartWith) would only block on the completion lock with a subscription
 		// nobody reads, which stalls the tracer
 		p.monitorOnce.Do(func() {
-			sender := p.tracer.RegisterSender()
+			sender := p.subTracer.RegisterSender()
 			go p.ceaseFlowMonitor(p.subTracer)(ctx, sender)
 		})
 		verifhook.Point("process.startwith.after_monitor")
